@@ -46,7 +46,7 @@ CLAIMS = {
     note="Trusted: POSIX unlink-while-open, rename atomicity, SQLite WAL snapshot isolation (a new session sees all earlier commits); one packer. Also hosts the rule module of C08 (freshness for long-open reader handles, which are in C04's quantifier).",
     technique="static typestate analysis on ICFGs with exception edges + handler-routing/provenance checks on the read funnel", ref="5/C04"),
  'C17': dict(
-    text=("Decides, on control-flow graphs with exception edges (any call may raise): (R2) no except clause of the package that catches a generic I/O or database error around a mutating effect continues normally (table of allowed narrow idioms); "
+    text=("Decides, on control-flow graphs with exception edges (any call may raise): (R2) no except clause of the package that catches a generic I/O or database error around a mutating effect continues normally (table of allowed narrow idioms); (R2p) closed table of the sites that swallow PermissionError or a whole OSError; "
           "(R3) the C05 commit/unlink/publish/repack guards also hold along handler, finally and with-exit paths, no index row is staged or tracked for an object whose processing was interrupted by a swallowed exception, and offset/length of every staged row are taken from the handle after any interrupted write (range machine on the exception graph); "
           "(R4) HashWriterWrapper.write checks the stream position before writing and updates hash/position only after it. Does NOT decide the behaviour of real calls under injected faults nor that a rerun succeeds."),
     note="Fault model: one call raises OSError/OperationalError; PermissionError (Windows locking) handlers only checked by R3; stale lock files / sandbox litter tolerated by the property.",
@@ -68,14 +68,14 @@ CLAIMS = {
  'C07': dict(
     text=("Decides API-contract shape clauses of the stream classes: (R1) in PackedObjectReader.seek, for each whence value, lower and upper bounds are checked on the variable that determines the new handle position after its last assignment and before the handle moves; "
           "(R2) the value returned is that normalised absolute target (whence=1 via tell(), whence=2 via the length) / the decompresser returns its position; (R3) every read of the pack handle is bounded by length-position and the position is refreshed after every move; "
-          "(R4) invalid whence rejected first; (R5) decompresser: negative target rejected before any state change, forward loop stops on empty read, proxy switch one-way, after open_stream()+seek(pos), tested first by read/tell/seek; (R6) rewind resets every state attribute __init__ initialises; (R7) PackedObjectReader converts between object and pack-file coordinates only as handle.tell() - offset and offset + target, read-all branch selected exactly by size None/negative; (R8) decompresser: position advanced by exactly the returned head of the buffer (buffer cut at one index), forward seek reads at most up to the target, a backward target rewinds first. "
+          "(R4) invalid whence rejected first; (R5) decompresser: negative target rejected before any state change, forward loop stops on empty read, proxy switch one-way, after open_stream()+seek(pos), tested first by read/tell/seek; (R6) rewind resets every state attribute __init__ initialises; (R7) PackedObjectReader converts between object and pack-file coordinates only as handle.tell() - offset and offset + target, read-all branch selected exactly by size None/negative; (R8) decompresser: position advanced by exactly the returned head of the buffer (buffer cut at one index), every inflated byte goes through the buffer, forward seek reads at most up to the target, a backward target rewinds first; (R9) every decompresser the read funnel constructs is given the lazy loose stream (sibling passes agree). "
           "Does NOT decide equality with io.BytesIO for all programs/contents (values)."),
     note="The loose stream is a regular Python file object (trusted).",
     technique="per-whence typestate on the method CFG + def-use / sibling-agreement checks over the stream classes", ref="5/C07"),
  'C08': dict(
     text=("Decides freshness clauses with a typestate on the cached operation session (possibly pinned at entry / none / fresh): (R1) the read funnel answers MISSING only after loose probe -> session refresh -> query on the new session, both stream modes; "
           "(R2) list_all_objects scans the index on a session created since entry whose first statement follows the loose listing; (R3) every public pure view of Container with its own index query is either analysed the same way or is a tabled statistic (count_objects, get_total_size, validate); "
-          "(R4) clean_storage decides on a reloaded session. Does NOT decide histories as such."),
+          "(R4) clean_storage decides on a reloaded session and pack_all_loose unlinks loose files only for keys it staged and committed itself; no memoised reader of files/index behind the public API; every public key view answers through the funnel. Does NOT decide histories as such."),
     note="Trusted: SQLite WAL snapshot starts at the session's first statement; a new session sees all earlier commits; sequential histories.",
     technique="session-freshness typestate on ICFGs (with emptiness facts for the retry set)", ref="5/C08"),
  'C14': dict(
@@ -93,7 +93,7 @@ CLAIMS = {
     note="Relies on C13/C05 (append-only packs, commit after write) as the property's own anchor says; only simple exclude patterns are evaluated. Also hosts the rule module of C13 (append-only, in-order packs: the property's own stated premise).",
     technique="ordering typestate over kind-classified copy steps + constant pattern evaluation + error-propagation checks", ref="5/C15"),
  'C18': dict(
-    text=("Decides resource-shape clauses: (R1) every descriptor-producing call of the package (open, os.open, sqlite3.connect, tempfile) is with-managed, closed on all normal paths of its function, handed over, or stored in an attribute whose owner class closes it; Container.close closes and disposes both sessions and __exit__/__del__ call it; "
+    text=("Decides resource-shape clauses: (R1) every descriptor-producing call of the package (open, os.open, sqlite3.connect, tempfile) is with-managed, closed on all normal paths of its function, handed over, or stored in an attribute whose owner class closes it; Container.close closes and disposes both sessions, which are plain per-handle attributes (no property / thread-local indirection), and __exit__/__del__ call it; "
           "(R2) the bulk-read generator never has two files open and closes on every exit incl. exceptions; the lazy loose stream is closed after each yield; (R3) no descriptor-returning call is discarded, incl. fcntl commands folding to F_DUPFD under Linux and macOS platform models; "
           "(R4) lazily opened streams are used only inside their with block; (R5) every read in a streaming loop has a constant bound, whole-object reads in import are guarded by the memory budget; (R6) open_streams forwarded unchanged by every wrapper. Does NOT decide measured memory or the run-time descriptor census."),
     note="Garbage collection is not relied upon; platform models Linux + macOS.",
@@ -111,19 +111,19 @@ CLAIMS = {
           "(R2) the compressed flag stored in the index row is the very value that selects the writer's compressing branch (pack_all_loose, direct path, _write_data_to_packfile guards), and in repack it is decided for every object from that object's own stored form on every path, with a complete transfer branch table, and every path that stages a row ran exactly one transfer loop in the form its tests select (raw copy iff flags equal / destination uncompressed; deflate + flush iff destination compressed); "
           "(R3) estimate_compression restores the stream position on every path (typestate) and should_compress touches the stream nowhere else; (R4) size = bytes read by the writer / copied from the row, length = tell() difference around exactly this object's writes on every path incl. exception paths (range machine shared with C03.R1), totals map SUM(size)/SUM(length) to the right labels; (R5) decompresser rewind resets all state; (R6) compress forwarded unchanged by every wrapper; the read side: the decompresser wraps the reader iff the truthiness of the row's flag (never an identity test). "
           "Does NOT decide that inflate(deflate(x)) == x nor the AUTO heuristic's numeric choice."),
-    note="zlib trusted.",
+    note="zlib trusted. Also hosts the rule module of C03 (index/pack agreement at every step of the writers and of the repack hand-over).",
     technique="enum/branch table check + def-use agreement + position-restore typestate", ref="5/C10"),
  'C11': dict(
     text=("Decides: (R1) every unlink and the DELETE of delete_objects are keyed by elements of the request parameter (duplicates by the exact prefix '<key>.'), the chunk loop feeds every chunk (<= 999) to both SELECT and DELETE and has no early exit; "
           "(R2) a cursor typestate shows the selected rows are consumed before a modifying statement runs on the same connection, and the returned keys are exactly (loose files actually removed) U (rows selected); "
           "(R3) repack iterates exactly the rows of the pack in offset order, reads each object through a reader bounded by its own row, into a temporary pack whose absence is asserted before it is opened for appending; (R4) packs without rows are unlinked -- and only those: the pack's own file is removed only after an existence query over its rows said none, or after the commit that re-pointed them -- and repack() visits every pack. "
           "Does NOT decide byte equality of the rewritten packs."),
-    note="sqlite3 cursors are lazy against later modifications on the same connection.",
+    note="sqlite3 cursors are lazy against later modifications on the same connection. Also hosts the rule module of C03 (a repack that records wrong ranges makes the other objects unreadable).",
     technique="interprocedural provenance + cursor / freshness typestate + SQL statement terms", ref="5/C11"),
  'C12': dict(
     text=("Decides completeness of the validator (necessary for 'never clean on a damaged one') and the pack set it opens (necessary for 'clean on reachable states'): (R1) the loop visits the whole loose listing (no removal, filter or skip), every loose key is opened, rehashed with the configured type, a mismatch unconditionally recorded; "
           "(R2) the packs visited are exactly SELECT DISTINCT pack_id of the index; per row (all rows of the pack: WHERE exactly the pack id, ORDER BY offset, no LIMIT/paging, also through local generator helpers; variables identified by column position) digest, size and strict overlap comparisons each record the key on the failing branch; "
-          "(R3) result keys = ValidationIssues fields, per-pack results accumulated with += for every pack, is_valid and the CLI exit status reflect every field. Does NOT decide absence of false positives on all reachable states nor detection of every bit flip (value-level)."),
+          "(R4) the pack writers insert the staged rows in writing order (no sort/reverse), which the ORDER BY offset tie-break of the overlap test relies on; (R3) result keys = ValidationIssues fields, per-pack results accumulated with += for every pack, is_valid and the CLI exit status reflect every field. Does NOT decide absence of false positives on all reachable states nor detection of every bit flip (value-level)."),
     note="Hash collisions excluded; reader classes covered by C07.",
     technique="def-use / statement-shape checks + SQL statement terms", ref="5/C12"),
  'C16': dict(
